@@ -362,7 +362,7 @@ def _gen_live(rng, big, wav, hide):
     def miss():
         ops.append({'op': 'read', 'name': rng.choice(['NOSUCH', 'zz', 'NOSUCHFILE12']), 'as': rng.choice(['D', 'L', 'M'])})
 
-    for _ in range(rng.choice([0, 1, 2, 2, 3]) if not wav else rng.choice([0, 1, 2, 2])):
+    for _ in range(rng.choice([0, 1, 2, 2, 3, 3]) if not wav else rng.choice([0, 1, 2, 2, 3])):
         write(susp=0.15)
     if ops and rng.random() < 0.7:
         ops.append({'op': 'restart'})
@@ -376,7 +376,9 @@ def _gen_live(rng, big, wav, hide):
         elif r < 0.44:
             # read a file, record behind it (over whatever follows)
             if written:
-                read(*rng.choice(written))
+                if rng.random() < 0.5:
+                    ops.append({'op': 'restart'})
+                read(*rng.choice(written[:-1] or written))
             write(at='here', susp=0.6, force='raw' if rng.random() < 0.4 else None)
             if rng.random() < 0.4:
                 ops.append({'op': 'suspend'})
@@ -395,7 +397,13 @@ def _gen_live(rng, big, wav, hide):
         elif r < 0.80:
             ops.append({'op': 'restart'})
         elif r < 0.88:
+            # suspend wherever the tape is (often at the very end of the image, in recording mode), then play
             ops.append({'op': 'suspend'})
+            if written and rng.random() < 0.5:
+                if rng.random() < 0.5:
+                    read(*rng.choice(written))
+                else:
+                    miss()
         elif written:
             read(*rng.choice(written))
     ops.append({'op': 'restart'})
@@ -414,7 +422,7 @@ def gen(rng, tier, prop):
     big = tier != 'quick'
     arm = rng.random()
     if arm < 0.32:
-        wav = rng.random() < 0.2
+        wav = rng.random() < 0.25
         hide = rng.random() < 0.35
         cfg = {
             'image': 'WAV' if wav else 'CAS',
